@@ -362,6 +362,9 @@ def check_true_color(prog, rep):
                         ws = None
                         break
                 a3 = settled(ws) if ws else []
+        if len(a3) == 1 and a3[0][0] is None and isinstance(a3[0][1], tuple) and a3[0][1][0] == 'const':
+            # what survives is one whole-array constant: no cell is distinguished
+            oka, whya = False, 'every cell ends up %r (a whole fill is the last write)' % (a3[0][1][1],)
         if len(a3) == 2 and a3[0][0] is None and a3[1][0] is not None:
             oka = a3[0][1] == ('const', 255) and a3[1][1] == ('const', 0) and is_mask(a3[1][0])
             whya = 'filled with %s, then %s where %s' % (a3[0][1], a3[1][1], tshow(a3[1][0], 80))
